@@ -747,7 +747,40 @@ def nfkc_table_problem():
     return None
 
 
+# every implementation object the Gallina model mirrors by hand (Model/C14_urlsplit.v, Model/C14_location.v)
+MODELLED = [
+    # CPython urllib.parse (Model/C14_urlsplit.v; quote in Model/C14_location.v)
+    "urllib.parse:urlsplit", "urllib.parse:urlparse", "urllib.parse:_splitparams", "urllib.parse:_splitnetloc",
+    "urllib.parse:_checknetloc", "urllib.parse:urlunsplit", "urllib.parse:urlunparse", "urllib.parse:urljoin",
+    "urllib.parse:quote", "urllib.parse:quote_from_bytes", "urllib.parse:_ALWAYS_SAFE",
+    "urllib.parse:uses_relative", "urllib.parse:uses_netloc", "urllib.parse:uses_params", "urllib.parse:scheme_chars",
+    "urllib.parse:_WHATWG_C0_CONTROL_OR_SPACE", "urllib.parse:_UNSAFE_URL_BYTES_TO_REMOVE",
+    # webob.response
+    "webob.response:_request_uri", "webob.response:Response._make_location_absolute", "webob.response:_percent_encode_match",
+    "webob.response:Response._abs_headerlist", "webob.response:Response.__call__",
+    "webob.response:Response.conditional_response_app", "webob.response:filter_headers", "webob.response:Response.location",
+    # webob.descriptors (CR/LF refusal of the Location setter)
+    "webob.descriptors:header_getter",
+    # webob.exc
+    "webob.exc:_HTTPMove.__init__", "webob.exc:_HTTPMove.__call__", "webob.exc:WSGIHTTPException.__call__",
+    "webob.exc:WSGIHTTPException.generate_response",
+    # webob.request (add_slash / missing location)
+    "webob.request:BaseRequest.host_url", "webob.request:BaseRequest.application_url", "webob.request:BaseRequest.path_url",
+    "webob.request:PATH_SAFE",
+]
+# translated into coq/Gen/C14_regexes.v by gen(ctx) on every run
+REGENERATED = ["webob.descriptors:SCHEME_RE", "webob.response:_CTL_OR_SPACE_RE", "webob.response:_COLON_IN_FIRST_SEGMENT_RE"]
+# exercised by the oracle only: the concrete redirect classes (modelled as _HTTPMove), IPv6-literal hosts, the
+# url_encoding round trip of non-ASCII SCRIPT_NAME / PATH_INFO behind path_url
+ORACLE_ONLY = ["webob.exc:" + c for c in MOVE_CLASSES if c != "_HTTPMove"] + [
+    "urllib.parse:_check_bracketed_host", "webob.request:BaseRequest.encget", "webob.request:BaseRequest.script_name",
+    "webob.request:BaseRequest.path_info"]
+
+
 def run(ctx):
+    ctx.modelled(MODELLED)
+    ctx.extra["regenerated_from_source"] = REGENERATED
+    ctx.extra["oracle_only"] = ORACLE_ONLY
     problems = gen(ctx)
     for p in problems:
         ctx.broken.append("translator: " + p)
